@@ -553,6 +553,7 @@ func run(seed int64, n int, dir string, _ []string) {
 		accessForms(o, bin, scratch)
 		heldAtStep(o, bin, scratch) // giveup.go: the waiting time / a signal ends inside the successful attempt
 		pausedRelease(o, bin, scratch) // giveup.go: another process arrives between two release steps
+		pausedCommit(o, bin, scratch)  // giveup.go: a table that is only locked is asked for while its holder is inside COMMIT
 	}
 	lockTimeouts(o, scratch, 2+n/100)
 	giveUpInProcess(o, scratch)
